@@ -5,6 +5,7 @@ import Driver.Cache
 import Driver.Walk
 import Driver.Pfn
 import Driver.Err
+import Driver.Flat
 
 def main (args : List String) : IO UInt32 := do
   let stdin ← IO.getStdin
@@ -16,4 +17,5 @@ def main (args : List String) : IO UInt32 := do
   | ["walk"] => Driver.Walk.run stdin; return 0
   | ["pfn"] => Driver.Pfn.run stdin; return 0
   | ["err"] => Driver.Err.run stdin; return 0
+  | ["flat"] => Driver.Flat.run stdin; return 0
   | _ => IO.eprintln "usage: kdfdrv <stream>"; return 2
